@@ -40,4 +40,7 @@ def check(model, tier):
     payload.r10_4_who_may_attach(ctx, rule="R09.6")
     run.assume("values of `Any`-typed fields (ColumnLiteral.value, LeafRelation.parameters) supplied by callers are hashable")
     run.assume("sqlalchemy constructs are used functionally (they return new objects)")
+    from ..rules import purity as _purity
+
+    _purity.r_no_value_keyed_cache(ctx, "R09.7")
     return run
